@@ -27,12 +27,11 @@ func (o *OperatorPartition) OwnsKey(key []byte) bool {
 }
 
 func (o *OperatorPartition) ExclusivelyOwnsTable(uri string, startKey []byte, endKey []byte) (bool, error) {
-	// If this partition owns the entire key range then there's no need to check
-	// other operators.
-	otherRange := partitioning.KeyGroupRangeFromBytes(startKey[:2], endKey[:2])
-	if o.keyGroupRange.Contains(otherRange) {
-		return true, nil
-	}
+	// After a rescale every operator whose range overlapped the old operator's
+	// range loaded all of that operator's tables, also those whose keys lie
+	// entirely in this partition's range, and its checkpoints keep referencing
+	// them. So the key range of the table says nothing about who else uses the
+	// file: the neighbors always have to be asked.
 
 	// Setup context to race the NeedsTable calls.
 	ctx, cancel := context.WithCancel(context.Background())
@@ -82,17 +81,7 @@ type neighborPartition struct {
 }
 
 func (o *neighborPartition) NeedsTable(ctx context.Context, filePath string, startKey []byte, endKey []byte) (bool, error) {
-	// Derive the key group range from the start and end keys of a table.
-	tableKeyGroupRange := partitioning.KeyGroupRange{
-		Start: int(partitioning.KeyGroupFromBytes(startKey[:2])),
-		End:   int(partitioning.KeyGroupFromBytes(endKey[:2])) + 1,
-	}
-
-	// If the neighboring operator's key group range doesn't intersect with the
-	// table's key range then we don't need to ask if it needs the table.
-	if !o.keyGroupRange.Overlaps(tableKeyGroupRange) {
-		return false, nil
-	}
-
+	// The neighbor may reference the table in a checkpoint even when none of the
+	// table's keys belong to it (see ExclusivelyOwnsTable), so always ask.
 	return o.operator.NeedsTable(ctx, filePath)
 }
